@@ -1,5 +1,5 @@
 use crate::{config::EndpointConfig, connection::Connection, ConnectionOrigin, PeerId, Result};
-use std::sync::Arc;
+use std::sync::{Arc, Weak};
 use std::time::Duration;
 use std::{
     future::Future,
@@ -21,6 +21,9 @@ pub(crate) struct Endpoint {
     inner: quinn::Endpoint,
     local_addr: RwLock<SocketAddr>,
     config: EndpointConfig,
+    /// The socket this endpoint was created on. Connections keep their own reference to it, so
+    /// this is how shutdown can tell when it has really been released.
+    initial_socket: Weak<dyn quinn::AsyncUdpSocket>,
 }
 
 impl Endpoint {
@@ -33,6 +36,7 @@ impl Endpoint {
             let mut endpoint_config = config.quinn_endpoint_config();
             endpoint_config.rng_seed(Some(transport.rng_seed));
             let local_addr = transport.socket.local_addr()?.pipe(RwLock::new);
+            let initial_socket = Arc::downgrade(&transport.socket);
             let inner = quinn::Endpoint::new_with_abstract_socket(
                 endpoint_config,
                 Some(config.server_config().clone()),
@@ -43,21 +47,26 @@ impl Endpoint {
                 inner,
                 local_addr,
                 config,
+                initial_socket,
             });
         }
         let local_addr = socket.local_addr()?.pipe(RwLock::new);
         let server_config = config.server_config().clone();
-        let endpoint = quinn::Endpoint::new(
+        let runtime = Arc::new(quinn::TokioRuntime);
+        let socket = quinn::Runtime::wrap_udp_socket(&*runtime, socket)?;
+        let initial_socket = Arc::downgrade(&socket);
+        let endpoint = quinn::Endpoint::new_with_abstract_socket(
             config.quinn_endpoint_config(),
             Some(server_config),
             socket,
-            Arc::new(quinn::TokioRuntime),
+            runtime,
         )?;
 
         let endpoint = Self {
             inner: endpoint,
             local_addr,
             config,
+            initial_socket,
         };
 
         Ok(endpoint)
@@ -151,6 +160,25 @@ impl Endpoint {
         *self.local_addr.write().unwrap() = local_addr;
 
         Ok(())
+    }
+
+    /// Wait until the socket this endpoint was created on has been dropped (after it has been
+    /// replaced with [`rebind`](Self::rebind)), for at most `max_timeout`.
+    ///
+    /// A connection that is still alive only lets go of the old socket once its driver task has
+    /// processed the rebind, which happens some time after `rebind` returns.
+    pub(crate) async fn wait_initial_socket_released(&self, max_timeout: Duration) {
+        let released = async {
+            while self.initial_socket.strong_count() > 0 {
+                tokio::task::yield_now().await;
+                if self.initial_socket.strong_count() > 0 {
+                    tokio::time::sleep(Duration::from_millis(1)).await;
+                }
+            }
+        };
+        if timeout(max_timeout, released).await.is_err() {
+            warn!("the endpoint's original socket is still referenced by a connection");
+        }
     }
 
     /// Get the next incoming connection attempt from a client
